@@ -82,17 +82,19 @@ AddBigChecks(e, log2, hyperRoot) ==
                IF s.i \in 1..m THEN SnapChecks(s, s.i, e, log2, hyperRoot, v0) ELSE {}
              : j \in 1..Len(e.snaps) }
 
+(* TLC re-evaluates an action-level LET at every reference but evaluates an operator argument
+   once: expensive values are therefore passed as arguments *)
+StepAdd3(log2, hmap2, hr2) ==
+  /\ log' = log2
+  /\ hmap' = hmap2
+  /\ hroot' = hr2
+  /\ hyps' = hyps \o [i \in 1..Len(Ev.bulk) |-> hr2]
+  /\ viol' = viol \cup Fails(IF Ev.a = "add" THEN AddChecks(Ev, log2, hr2) ELSE AddBigChecks(Ev, log2, hr2))
+  /\ UNCHANGED reopened
+StepAdd2(log2, hmap2) == StepAdd3(log2, hmap2, HRoot(hmap2))
 StepAdd ==
   /\ Ev.a \in {"add", "addbig"}
-  /\ LET log2  == log \o Ev.bulk
-         hmap2 == ApplyBulkMap(hmap, Ev.bulk, Len(log))
-         hr2   == HRoot(hmap2) IN
-     /\ log' = log2
-     /\ hmap' = hmap2
-     /\ hroot' = hr2
-     /\ hyps' = hyps \o [i \in 1..Len(Ev.bulk) |-> hr2]
-     /\ viol' = viol \cup Fails(IF Ev.a = "add" THEN AddChecks(Ev, log2, hr2) ELSE AddBigChecks(Ev, log2, hr2))
-  /\ UNCHANGED reopened
+  /\ StepAdd2(log \o Ev.bulk, ApplyBulkMap(hmap, Ev.bulk, Len(log)))
 
 (*----------------------------------------------------------- member ------*)
 (* sr: the specification's hyper search result for e.d *)
